@@ -528,6 +528,37 @@ func genDatagram(t *rapid.T, pool []uint32) dgram {
 	return d
 }
 
+// shiftEvent returns a copy of a well-formed event whose system date/time and event timestamp are moved by delta (false if the
+// datagram is not a 64-byte event with decimal date/time fields in 2001..2067).
+func shiftEvent(prev dgram, delta time.Duration) (dgram, bool) {
+	b := prev.Data
+	if len(b) != 64 || b[1] != 0x20 {
+		return dgram{}, false
+	}
+	dec := func(x byte) (int, bool) { return int(x>>4)*10 + int(x&0x0f), x>>4 <= 9 && x&0x0f <= 9 }
+	var v [6]int
+	for i, off := range []int{51, 52, 53, 37, 38, 39} {
+		x, ok := dec(b[off])
+		if !ok {
+			return dgram{}, false
+		}
+		v[i] = x
+	}
+	if v[0] < 1 || v[0] > 67 || v[1] < 1 || v[1] > 12 || v[2] < 1 || v[2] > 28 || v[3] > 23 || v[4] > 59 || v[5] > 59 {
+		return dgram{}, false
+	}
+	at := time.Date(2000+v[0], time.Month(v[1]), v[2], v[3], v[4], v[5], 0, time.UTC).Add(delta)
+	if at.Year() < 2001 || at.Year() > 2067 {
+		return dgram{}, false
+	}
+	out := append([]byte(nil), b...)
+	enc := func(x int) byte { return byte(x/10<<4 | x%10) }
+	out[51], out[52], out[53] = enc(at.Year()%100), enc(int(at.Month())), enc(at.Day())
+	out[37], out[38], out[39] = enc(at.Hour()), enc(at.Minute()), enc(at.Second())
+	spec.PutLE32(out[40:], spec.LE32(b[40:])+1)
+	return dgram{Sender: prev.Sender, Data: out}, true
+}
+
 func genHistory(t *rapid.T) history {
 	var h history
 	h.Debug = gen.Debug(t, "debug")
@@ -557,6 +588,19 @@ func genHistory(t *rapid.T) history {
 			var b []dgram
 			nd := rapid.IntRange(1, 40).Draw(t, "datagrams")
 			for k := 0; k < nd; k++ {
+				if k > 0 && rapid.IntRange(0, 3).Draw(t, "related") == 0 {
+					// the same controller again, its clock a calendar step earlier or later than in its previous event (a clock that
+					// was corrected, events replayed from the controller's store): every event is decoded on its own
+					delta := rapid.SampledFrom([]time.Duration{time.Second, time.Minute, time.Hour, 24*time.Hour - 90*time.Second, 24*time.Hour - time.Second, 24 * time.Hour, 24*time.Hour + 30*time.Second,
+						23*time.Hour + 30*time.Minute, 48 * time.Hour, 7 * 24 * time.Hour, 31 * 24 * time.Hour, 365 * 24 * time.Hour, 0}).Draw(t, "related.delta")
+					if rapid.Bool().Draw(t, "related.back") {
+						delta = -delta
+					}
+					if d, ok := shiftEvent(b[k-1], delta); ok {
+						b = append(b, d)
+						continue
+					}
+				}
 				b = append(b, genDatagram(t, pool))
 			}
 			cy.Batches = append(cy.Batches, b)
